@@ -486,7 +486,7 @@ func c14Judge(c *mon.Ctx, in *c14Script) {
 			}
 		}()
 	}
-	defer func() {                            // every query is a read: the script is afterwards what it was
+	defer func() { // every query is a read: the script is afterwards what it was
 		if !bytes.Equal(*scr, s) {
 			c.Violationf("C14:inspection-changed-the-script", "after the inspection queries the script is %x, it was %x", []byte(*scr), s)
 		}
